@@ -1,4 +1,5 @@
 import RsMatterVerif.Lemmas.CodecBuf
+import RsMatterVerif.Lemmas.CodecLevel0 -- G5
 import RsMatterVerif.Lemmas.CodecBase38
 import RsMatterVerif.Lemmas.CodecVerhoeff
 import RsMatterVerif.Lemmas.CodecManual
@@ -16,13 +17,14 @@ import RsMatterVerif.Lemmas.CodecMdnsRound
 import RsMatterVerif.Lemmas.CodecMdnsService
 import RsMatterVerif.Lemmas.CodecX509Sound -- E3
 import RsMatterVerif.Lemmas.CodecCd -- E3
+import RsMatterVerif.Lemmas.CodecDerLinkFull -- G5 (audit C17 concern 2; imports CodecDerLinkWalk, CodecDerLinkX509, CodecDerLink)
 /-!
 # C17 — headers, onboarding payloads and discovery records decode what was encoded
 
 For every modelled codec: `decode (encode x) = ok x` under an explicit, decidable well-formedness
 predicate (with an `example` that it is satisfiable), totality / absence of panics of the decoder on
-arbitrary input (`NoPanic`: the model's checked cursor / index arithmetic never answers
-`Err.panic`), and the refusal clauses of the property (wrong check digit, invalid base-38 character
+arbitrary input (`NoPanic`: the model never answers `Err.panic`; this has content where the model has
+checked operations — see section (0b) for the decoders whose list-level model has none), and the refusal clauses of the property (wrong check digit, invalid base-38 character
 or length class, out-of-range fields).
 
 The proofs live in `Lemmas/Codec*.lean`; this file states the property-level theorems.
@@ -61,6 +63,71 @@ theorem writebuf_append (w : WBuf) (src : List Nat) (h : w.Inv) :
     else w.append src = .error .noSpace) ∧ NoPanic (w.append src) :=
   ⟨WBuf.append_spec w src h, WBuf.append_np w src h⟩
 example : (WBuf.new 8).Inv := WBuf.new_inv _
+
+/-! ## (0b) whole decoders on the cursor model (G5): composition of `parsebuf_refines`
+
+The totality theorems `plain_hdr_decode_total`, `proto_hdr_decode_total`, `status_report_read_total`,
+`bdx_parsers_total` further down are about the *level-1* models, which read from a list and contain no
+failing operation (`Err.panic` does not occur in them): they hold by construction. The content is here:
+the same Rust functions transliterated over the level-0 cursor `RBuf` (`Model/Codec/Level0.lean`), where
+every slice / index / `usize` subtraction of `parsebuf.rs` **and the three direct `payload[..]` index
+expressions of `bdx.rs`** are checked operations answering `Err.panic`, (a) never answer `panic` on arbitrary
+input and (b) compute exactly what the level-1 decoder computes on the remaining bytes. The BTP header /
+handshake decoders read from a byte *iterator* (`next().ok_or(..)?` only, no index expression in the Rust),
+so `btp_hdr_decode_total` / `btp_handshake_decode_total` are by construction in the code as well. -/
+
+/-- `PlainHdr::decode` on any `ReadBuf` in its invariant: equals the list-level decoder on the remaining
+bytes, leaves the cursor in its invariant, and no checked operation fails. `RefinesCur x y` :=
+`match x with | .ok (h, b') => y = .ok (h, b'.rem) ∧ b'.Inv | .error e => y = .error e ∧ e ≠ .panic`. -/
+theorem plain_hdr_decode_refines (h0 : PlainHdr.Hdr) (b : RBuf) (hb : b.Inv) :
+    RefinesCur (PlainHdr.decode0 h0 b) (PlainHdr.decode h0 b.rem) ∧
+    NoPanic (PlainHdr.decode0 h0 b) :=
+  have h := PlainHdr.decode0_sim h0 b rfl rfl hb
+  ⟨SimR.refinesCur hb h, h.noPanic⟩
+
+/-- the same for `ProtoHdr::decrypt_and_decode` (decoding part) -/
+theorem proto_hdr_decode_refines (h0 : ProtoHdr.Hdr) (b : RBuf) (hb : b.Inv) :
+    RefinesCur (ProtoHdr.decode0 h0 b) (ProtoHdr.decode h0 b.rem) ∧
+    NoPanic (ProtoHdr.decode0 h0 b) :=
+  have h := ProtoHdr.decode0_sim h0 b rfl rfl hb
+  ⟨SimR.refinesCur hb h, h.noPanic⟩
+
+/-- … including the checked `parsebuf.as_slice()` inside the `trace!("[rx payload]: …")` that ends `decrypt_and_decode`
+(evaluated when trace logging is on): it cannot fail, the traced decoder is the decoder -/
+theorem proto_hdr_decode_traced (h0 : ProtoHdr.Hdr) (b : RBuf) (hb : b.Inv) :
+    ProtoHdr.decode0Traced h0 b = ProtoHdr.decode0 h0 b ∧ NoPanic (ProtoHdr.decode0Traced h0 b) := by
+  rw [ProtoHdr.decode0Traced_eq h0 b hb]
+  exact ⟨rfl, (proto_hdr_decode_refines h0 b hb).2⟩
+example : (RBuf.new [0x05, 0x20, 1, 0, 0, 0, 9, 9]).Inv := RBuf.new_inv _
+
+/-- `StatusReport::read` (three reads and the checked `as_slice()`) -/
+theorem status_report_read_refines (b : RBuf) (hb : b.Inv) :
+    StatusReport.read0 b = StatusReport.read b.rem ∧ NoPanic (StatusReport.read0 b) :=
+  have h := StatusReport.read0_sim b hb
+  ⟨h.eq, h.noPanic⟩
+example : (RBuf.new [1, 0, 2, 0, 0, 0, 3, 0, 9]).Inv ∧
+    StatusReport.read0 (RBuf.new [1, 0, 2, 0, 0, 0, 3, 0, 9]) = .ok { general := 1, protoId := 2, protoCode := 3, data := [9] } :=
+  ⟨RBuf.new_inv _, rfl⟩
+
+/-- **BDX parsers with their direct index expressions checked** (`payload.get(off..end)`, `&payload[end..]`,
+`&payload[rb.read_off()..]`): for every payload they equal the list-level parsers and never panic.
+`payload.length < 2^64` (a Rust slice length is a `usize`) is needed for `TransferInit` only, where the code
+computes `off.checked_add(fdl)`. -/
+theorem bdx_parsers_refine (l : List Nat) (r : Bool) (hl : l.length < USIZE) :
+    (Bdx.TransferInit.parse0 l = Bdx.TransferInit.parse l ∧ NoPanic (Bdx.TransferInit.parse0 l)) ∧
+    (Bdx.TransferAccept.parse0 r l = Bdx.TransferAccept.parse r l ∧ NoPanic (Bdx.TransferAccept.parse0 r l)) ∧
+    (Bdx.Block.parse0 l = Bdx.Block.parse l ∧ NoPanic (Bdx.Block.parse0 l)) ∧
+    (Bdx.blockQueryParse0 l = Bdx.blockQueryParse l ∧ NoPanic (Bdx.blockQueryParse0 l)) ∧
+    (Bdx.blockQuerySkipParse0 l = Bdx.blockQuerySkipParse l ∧ NoPanic (Bdx.blockQuerySkipParse0 l)) :=
+  ⟨⟨(Bdx.init_parse0_sim l hl).eq, (Bdx.init_parse0_sim l hl).noPanic⟩,
+   ⟨(Bdx.accept_parse0_sim r l).eq, (Bdx.accept_parse0_sim r l).noPanic⟩,
+   ⟨(Bdx.block_parse0_sim l).eq, (Bdx.block_parse0_sim l).noPanic⟩,
+   ⟨(Bdx.blockQuery0_sim l).eq, (Bdx.blockQuery0_sim l).noPanic⟩,
+   ⟨(Bdx.blockQuerySkip0_sim l).eq, (Bdx.blockQuerySkip0_sim l).noPanic⟩⟩
+/-- the checked index is a real obligation: the same slice one byte further out does answer `panic` -/
+example : RBuf.slice [1, 2, 3] 4 3 = .error .panic ∧ RBuf.slice [1, 2, 3] 3 3 = .ok [] := ⟨rfl, rfl⟩
+/-- a TransferInit whose file-designator length exceeds the payload is `TruncatedPacket`, not a panic -/
+example : Bdx.TransferInit.parse0 [0x10, 0, 0, 4, 9, 0, 1] = .error .truncated := rfl
 
 /-! ## (1) base-38 -/
 
@@ -159,6 +226,38 @@ theorem manual_code_invalid_checksum_rejected (code ds : List Nat) (hs : ManualC
     (hv : Verhoeff.validate ds = false) : ManualCode.parse code = .error .invalidData :=
   ManualCode.parse_rejects_bad_check code ds hs hv
 
+/-- **a manual pairing code with an out-of-range field is refused with `InvalidData`, also when its check digit
+is right**: first digit 8 / 9, vid/pid-present bit not matching the length, digits 2..6 > 65535, digits 7..10 >
+8191, vendor or product id > 65535 (`ManualCode.RangesOk`, on the digit string after the separators are stripped) -/
+theorem manual_code_out_of_range_rejected (code ds : List Nat) (hs : ManualCode.strip code [] = .ok ds)
+    (hbad : ¬ ManualCode.RangesOk ds) : ManualCode.parse code = .error .invalidData :=
+  ManualCode.parse_rejects_out_of_range code ds hs hbad
+
+/-- and one with another number of digits than 11 / 21 -/
+theorem manual_code_bad_length_rejected (code ds : List Nat) (hs : ManualCode.strip code [] = .ok ds)
+    (h : ds.length ≠ 11 ∧ ds.length ≠ 21) : ManualCode.parse code = .error .invalidData :=
+  ManualCode.parse_rejects_length code ds hs h
+
+/-- non-vacuity, one code per class, each with a *valid* Verhoeff digit (so only the range test refuses it):
+`80000000001` (first digit 8), `40000000011` (11 digits with the vid/pid flag), `06553600008` (digits 2..6 =
+65536), `00000081926` (digits 7..10 = 8192), `400000000165536000013` (vendor id 65536),
+`400000000100001655363` (product id 65536) -/
+example : [[56, 48, 48, 48, 48, 48, 48, 48, 48, 48, 49], [52, 48, 48, 48, 48, 48, 48, 48, 48, 49, 49],
+      [48, 54, 53, 53, 51, 54, 48, 48, 48, 48, 56], [48, 48, 48, 48, 48, 48, 56, 49, 57, 50, 54],
+      [52, 48, 48, 48, 48, 48, 48, 48, 48, 49, 54, 53, 53, 51, 54, 48, 48, 48, 48, 49, 51],
+      [52, 48, 48, 48, 48, 48, 48, 48, 48, 49, 48, 48, 48, 48, 49, 54, 53, 53, 51, 54, 51]].all
+    (fun ds => (match ManualCode.strip ds [] with | .ok r => r == ds | .error _ => false) &&
+      Verhoeff.validate ds && !decide (ManualCode.RangesOk ds)) = true := by decide
+
+/-- the encoder outside the legal field values (not demanded by the property — `compute_pairing_code` is not a
+decoder and discriminators ≥ 2^12 / passcodes ≥ 2^27 are not legal field values — stated to pin down where the
+`write_unwrap!` panic of the model, and of the code, begins): no panic up to discriminator 10239 and passcode
+163839999; `encode 10240 1` and `encode 0 163840000` answer `panic` (example in Lemmas/CodecManual.lean) -/
+theorem manual_code_encoder_no_panic_below (disc pw : Nat) (hd : disc < 10240) (hp : pw < 163840000) :
+    ∃ code, ManualCode.encode disc pw = .ok code ∧ code.length = 11 :=
+  ManualCode.encode_ok_of_bounds disc pw hd hp
+example : ManualCode.encode 10240 1 = .error .panic ∧ ManualCode.encode 0 163840000 = .error .panic := ⟨rfl, rfl⟩
+
 /-! ## (3) plain message header -/
 
 theorem plain_hdr_decode_encode (h h0 : PlainHdr.Hdr) (rest : List Nat) (hwf : PlainHdr.WF h) :
@@ -171,6 +270,8 @@ theorem plain_hdr_decode_encode_exact (h : PlainHdr.Hdr) (rest : List Nat) (hwf 
 example : PlainHdr.WF { flags := 6, sessId := 7, secFlags := 0xE1, ctr := 9, src := 11, dst := 13 } ∧
     PlainHdr.Canon { flags := 6, sessId := 7, secFlags := 0xE1, ctr := 9, src := 11, dst := 13 } := by decide
 
+/-- level-1 (list) model: holds by construction (no failing operation in the model); the checked-arithmetic
+statement is `plain_hdr_decode_refines` -/
 theorem plain_hdr_decode_total (h0 : PlainHdr.Hdr) (l : List Nat) : NoPanic (PlainHdr.decode h0 l) :=
   PlainHdr.decode_np h0 l
 
@@ -186,6 +287,7 @@ theorem proto_hdr_decode_encode_exact (h : ProtoHdr.Hdr) (rest : List Nat) (hwf 
 example : ProtoHdr.WF { exchId := 1, flags := 0x13, protoId := 2, opcode := 3, vendorId := 4, ackCtr := 5 } ∧
     ProtoHdr.Canon { exchId := 1, flags := 0x13, protoId := 2, opcode := 3, vendorId := 4, ackCtr := 5 } := by decide
 
+/-- level-1 (list) model: by construction; the checked-arithmetic statement is `proto_hdr_decode_refines` -/
 theorem proto_hdr_decode_total (h0 : ProtoHdr.Hdr) (l : List Nat) : NoPanic (ProtoHdr.decode h0 l) :=
   ProtoHdr.decode_np h0 l
 
@@ -195,6 +297,7 @@ theorem status_report_read_write (r : StatusReport.Report) (hwf : StatusReport.W
     StatusReport.read (StatusReport.writeBytes r) = .ok r :=
   StatusReport.read_write r hwf
 
+/-- level-1 (list) model: by construction; the checked-arithmetic statement is `status_report_read_refines` -/
 theorem status_report_read_total (l : List Nat) : NoPanic (StatusReport.read l) :=
   StatusReport.read_np l
 
@@ -205,10 +308,13 @@ theorem status_report_unknown_general_code_rejected (g : Nat) (rest : List Nat)
 
 /-! ## (6) QR onboarding payload: 3+16+16+2+8+12+27+4 bits, base-38 body, optional TLV tail -/
 
-/-- `parse (as_str q) = q`, including any optional-TLV bytes -/
-theorem qr_parse_encode (q : QrPayload.Qr) (hwf : QrPayload.WF q) (cap : Nat) (hcap : 11 + q.tlv.length ≤ cap) :
+/-- `parse (as_str q) = q`, including any optional-TLV bytes. `q.version = 0` is the only value the Rust type can
+hold (`QrPayload::new` sets it, the field is private); since the fix `C17-qr-version-accepted` the parser refuses
+every other version. -/
+theorem qr_parse_encode (q : QrPayload.Qr) (hwf : QrPayload.WF q) (hver : q.version = 0) (cap : Nat)
+    (hcap : 11 + q.tlv.length ≤ cap) :
     ∃ cs, QrPayload.encode q = .ok cs ∧ QrPayload.parse cs cap = .ok q :=
-  QrPayload.parse_encode q hwf cap hcap
+  QrPayload.parse_encode q hwf hver cap hcap
 def qrSample : QrPayload.Qr :=
   { version := 0, vid := 9050, pid := 65279, flow := 0, rendezvous := 2, disc := 2976
     pass := 34567890, tlv := [0x15, 0x18] }
@@ -219,19 +325,43 @@ example : QrPayload.WF qrSample := by
 theorem qr_parse_total (s : List Nat) (cap : Nat) : NoPanic (QrPayload.parse s cap) :=
   QrPayload.parse_np s cap
 
-/-- out-of-range / malformed QR texts are refused: no `MT:` prefix, a character outside the base-38
-alphabet, an impossible length class, fewer than 11 decoded bytes, the undefined commissioning flow 3 -/
+/-- out-of-range / malformed QR texts are refused, each with its error class (never `panic`): no `MT:`
+prefix → `InvalidData`; a character outside the base-38 alphabet or an impossible length class → `InvalidData`
+(`BufferTooSmall` when the bytes decoded before the bad chunk already overflow the caller's scratch buffer);
+fewer than 11 decoded bytes → `InvalidData` (`BufferTooSmall` only for a buffer that is smaller still); a version
+field other than 0 → `InvalidData`; the undefined commissioning flow 3 → `InvalidData` -/
 theorem qr_out_of_range_rejected :
     (∀ s cap, QrPayload.stripPrefix s = none → QrPayload.parse s cap = .error .invalidData) ∧
     (∀ body cap, ((∃ c ∈ body, c ∉ Base38.alphabet) ∨ body.length % 5 = 1 ∨ body.length % 5 = 3) →
-      ∃ e, QrPayload.parse (QrPayload.PREFIX ++ body) cap = .error e) ∧
+      QrPayload.parse (QrPayload.PREFIX ++ body) cap = .error .invalidData ∨
+      QrPayload.parse (QrPayload.PREFIX ++ body) cap = .error .bufferTooSmall) ∧
     (∀ body bytes cap, Base38.decode body = (bytes, none) → bytes.length < 11 →
-      ∃ e, QrPayload.parse (QrPayload.PREFIX ++ body) cap = .error e) ∧
+      QrPayload.parse (QrPayload.PREFIX ++ body) cap = .error .invalidData ∨
+      QrPayload.parse (QrPayload.PREFIX ++ body) cap = .error .bufferTooSmall) ∧
+    (∀ body bytes cap, Base38.decode body = (bytes, none) → (∀ b ∈ bytes, b < 256) → 11 ≤ bytes.length →
+      bytes.length ≤ cap → fromLe bytes % 2 ^ 3 ≠ 0 →
+      QrPayload.parse (QrPayload.PREFIX ++ body) cap = .error .invalidData) ∧
     (∀ body bytes cap, Base38.decode body = (bytes, none) → (∀ b ∈ bytes, b < 256) → 11 ≤ bytes.length →
       bytes.length ≤ cap → fromLe bytes / 2 ^ 35 % 2 ^ 2 = 3 →
       QrPayload.parse (QrPayload.PREFIX ++ body) cap = .error .invalidData) :=
   ⟨QrPayload.parse_rejects_prefix, QrPayload.parse_rejects_bad_base38, QrPayload.parse_rejects_short,
-   QrPayload.parse_rejects_flow⟩
+   QrPayload.parse_rejects_version, QrPayload.parse_rejects_flow⟩
+/-- `MT:10L9042C00KA0648G00` = the payload of `MT:Y.K9042C00KA0648G00` (vendor 0xFFF1, product 0x8000,
+discriminator 3840, passcode 20202021) with version 5: refused (accepted, with `version() = 5`, before the fix) -/
+example : QrPayload.parse [77, 84, 58, 49, 48, 76, 57, 48, 52, 50, 67, 48, 48, 75, 65, 48, 54, 52, 56, 71, 48, 48] 64
+    = .error .invalidData := rfl
+example : (QrPayload.parse [77, 84, 58, 89, 46, 75, 57, 48, 52, 50, 67, 48, 48, 75, 65, 48, 54, 52, 56, 71, 48, 48] 64).toOption.map
+    (fun q => (q.version, q.vid, q.pid, q.disc, q.pass)) = some (0, 65521, 32768, 3840, 20202021) := rfl
+
+/-- soundness of acceptance: whatever `QrPayload::parse` accepts has version 0 and a defined commissioning flow.
+(Criterion, the same for every onboarding codec: refused at codec level = the values for which the v1 layout or an
+enumeration is undefined — version ≠ 0, flow 3, manual-code first digit 8 / 9. The semantic legality of a correctly
+decoded field — passcode 0, > 99999998 or one of the trivial ones, an empty rendezvous set, padding / reserved bits — is the
+subject of the validator `QrPayload::is_valid`, not of `parse`, as in the reference SDK; see docs/C17.md, "Observations for the
+maintainers": that validator is not callable on the parsed type.) -/
+theorem qr_accepts_only_version0_defined_flow (s : List Nat) (cap : Nat) (q : QrPayload.Qr)
+    (h : QrPayload.parse s cap = .ok q) : q.version = 0 ∧ q.flow ≤ 2 :=
+  QrPayload.parse_ok_version_flow s cap q h
 
 /-! ## (7) BTP packet header and handshake -/
 
@@ -240,6 +370,8 @@ theorem btp_hdr_decode_encode (h h0 : BtpHdr.Hdr) (rest : List Nat) (hwf : BtpHd
   BtpHdr.decode_encode h h0 rest hwf
 example : BtpHdr.WF { flags := 0x0D, opcode := 0, ackNum := 3, seqNum := 4, msgLen := 300 } := by decide
 
+/-- by construction, in the model and in the code: the Rust decoder reads a byte iterator with
+`next().ok_or(ErrorCode::Invalid)?` and has no index / slice / subtraction / `unwrap` -/
 theorem btp_hdr_decode_total (h0 : BtpHdr.Hdr) (l : List Nat) : NoPanic (BtpHdr.decode h0 l) :=
   BtpHdr.decode_np h0 l
 
@@ -255,6 +387,7 @@ theorem btp_handshake_resp_decode_encode (r : BtpHdr.Resp) (rest : List Nat) (hw
 example : BtpHdr.Resp.WF { version := 4, mtu := 247, window := 6 } := by
   refine ⟨by decide, by decide, by decide⟩
 
+/-- by construction (byte iterator, see `btp_hdr_decode_total`) -/
 theorem btp_handshake_decode_total (l : List Nat) :
     NoPanic (BtpHdr.Req.decode l) ∧ NoPanic (BtpHdr.Resp.decode l) :=
   ⟨BtpHdr.req_decode_np l, BtpHdr.resp_decode_np l⟩
@@ -272,6 +405,35 @@ theorem checkin_parse_total (S : CheckIn.Scheme) (hS : S.Sound) (key payload : L
     NoPanic (CheckIn.parse S key payload) :=
   CheckIn.parse_np S hS key payload
 
+/-- a check-in payload shorter than nonce + counter + tag is refused -/
+theorem checkin_short_rejected (S : CheckIn.Scheme) (key payload : List Nat)
+    (h : payload.length < CheckIn.MIN_PAYLOAD_LEN) : CheckIn.parse S key payload = .error .invalid := by
+  simp [CheckIn.parse, h]
+
+/-- a check-in payload whose AEAD tag does not verify is refused (`InvalidData`) -/
+theorem checkin_bad_tag_rejected (S : CheckIn.Scheme) (key payload : List Nat)
+    (hl : ¬ payload.length < CheckIn.MIN_PAYLOAD_LEN)
+    (hdec : S.dec key (payload.take CheckIn.NONCE_LEN) (payload.drop CheckIn.NONCE_LEN) = none) :
+    CheckIn.parse S key payload = .error .invalidData :=
+  CheckIn.parse_rejects_bad_tag S key payload hl hdec
+
+/-- a check-in payload that decrypts but whose nonce is not the one derived from the authenticated counter is
+refused (`Invalid`) -/
+theorem checkin_wrong_nonce_rejected (S : CheckIn.Scheme) (key payload pt : List Nat)
+    (hl : ¬ payload.length < CheckIn.MIN_PAYLOAD_LEN)
+    (hdec : S.dec key (payload.take CheckIn.NONCE_LEN) (payload.drop CheckIn.NONCE_LEN) = some pt)
+    (h4 : ¬ pt.length < CheckIn.COUNTER_LEN)
+    (hn : CheckIn.nonceOf S key (fromLe (pt.take CheckIn.COUNTER_LEN)) ≠ payload.take CheckIn.NONCE_LEN) :
+    CheckIn.parse S key payload = .error .invalid :=
+  CheckIn.parse_rejects_wrong_nonce S key payload pt hl hdec h4 hn
+
+/-- non-vacuity on the toy scheme: a 33-byte payload with a broken tag; and one that decrypts to counter 1 under
+the nonce `09…09`, which is not the nonce of counter 1 -/
+example : CheckIn.parse CheckIn.toyScheme [] (List.replicate 33 0) = .error .invalidData :=
+  checkin_bad_tag_rejected CheckIn.toyScheme [] _ (by decide) (by decide)
+example : CheckIn.parse CheckIn.toyScheme [] (List.replicate 13 9 ++ [1, 0, 0, 0] ++ List.replicate 16 7) = .error .invalid :=
+  checkin_wrong_nonce_rejected CheckIn.toyScheme [] _ [1, 0, 0, 0] (by decide) (by decide) (by decide) (by decide)
+
 /-! ## (9) BDX messages -/
 
 theorem bdx_init_parse_write (t : Bdx.TransferInit) (hwf : Bdx.TransferInit.WF t) :
@@ -285,6 +447,8 @@ theorem bdx_accept_parse_write (t : Bdx.TransferAccept) (hwf : Bdx.TransferAccep
 theorem bdx_block_parse_write (b : Bdx.Block) (h : b.counter < 4294967296) : Bdx.Block.parse b.writeBytes = .ok b :=
   Bdx.block_parse_write b h
 
+/-- level-1 (list) model: by construction; the statement with the `ReadBuf` arithmetic and the three direct
+`payload[..]` index expressions of `bdx.rs` as checked operations is `bdx_parsers_refine` -/
 theorem bdx_parsers_total (l : List Nat) (r : Bool) :
     NoPanic (Bdx.TransferInit.parse l) ∧ NoPanic (Bdx.TransferAccept.parse r l) ∧ NoPanic (Bdx.Block.parse l) ∧
     NoPanic (Bdx.blockQueryParse l) ∧ NoPanic (Bdx.blockQuerySkipParse l) :=
@@ -298,6 +462,19 @@ theorem ble_adv_parse_encode (a : BleAdv.Adv) (hwf : BleAdv.WF a) :
 example : BleAdv.WF { vid := 0xFFF1, pid := 0x8000, disc := 0xF00, additional := false } := by
   refine ⟨by decide, by decide, by decide⟩
 
+/-- **the `AdStructures` walk of `matter_service_data` terminates**: the model's fuel `len + 1` is never
+exhausted (`WalkErr.fuel` is a distinct error, not the good value "no Matter record"), and the checked
+`rest.split_at(len)` is always in range. Shared by `AdvData::parse_adv` and `RecoveryAdvData::parse_adv`. -/
+theorem ble_adv_walk_terminates (adv : List Nat) :
+    (∃ r, BleAdv.matterServiceData (adv.length + 1) adv = .ok r) ∧
+    BleAdv.matterServiceData (adv.length + 1) adv ≠ .error .fuel ∧
+    BleAdv.matterServiceData (adv.length + 1) adv ≠ .error .panic :=
+  ⟨BleAdv.matterServiceData_ok adv, BleAdv.matterServiceData_no_fuel adv⟩
+/-- with too little fuel the model does answer `fuel` (two structures, one step) -/
+example : BleAdv.matterServiceData 1 [2, 1, 6, 2, 1, 6] = .error .fuel := rfl
+
+/-- `parseAdv` reports an error of the walk (fuel, failed split) as `Err.panic`, so this includes
+`ble_adv_walk_terminates` -/
 theorem ble_adv_parse_total (adv : List Nat) :
     NoPanic (BleAdv.parseAdv adv) ∧ NoPanic (BleAdv.parseServiceData adv) :=
   ⟨BleAdv.parseAdv_np adv, BleAdv.parseServiceData_np adv⟩
@@ -619,10 +796,10 @@ theorem ble_recovery_rejected :
     (∀ p : List Nat, p.length < BleRecovery.PAYLOAD_LEN → BleRecovery.parseServiceData p = .ok none) ∧
     (∀ (op : Nat) (rest : List Nat), op ≠ BleRecovery.OPCODE_NETWORK_RECOVERY →
       BleRecovery.parseServiceData (op :: rest) = .ok none) ∧
-    (∀ adv : List Nat, BleAdv.matterServiceData (adv.length + 1) adv = none → BleRecovery.parseAdv adv = .ok none) :=
+    (∀ adv : List Nat, BleAdv.matterServiceData (adv.length + 1) adv = .ok none → BleRecovery.parseAdv adv = .ok none) :=
   ⟨BleRecovery.parse_rejects_short, BleRecovery.parse_rejects_opcode, BleRecovery.parseAdv_rejects_no_matter⟩
 example : ([1, 0, 1, 2, 3] : List Nat).length < BleRecovery.PAYLOAD_LEN ∧ (0 : Nat) ≠ BleRecovery.OPCODE_NETWORK_RECOVERY ∧
-    BleAdv.matterServiceData 4 [0x02, 0x01, 0x05] = none := by decide
+    BleAdv.matterServiceData 4 [0x02, 0x01, 0x05] = .ok none := ⟨by decide, by decide, rfl⟩
 
 /-- soundness of an accepted payload: wire layout `01 vv id[8] ad …`, id verbatim, flag = bit 0 -/
 theorem ble_recovery_accepts_only_layout (p : List Nat) (r : BleRecovery.Rec)
@@ -1044,12 +1221,12 @@ end C17
 namespace C17
 open Codec.Cd
 
-/-- **`CertificationElements::decode` never panics**, whatever the content (every Rust slice: length + 1 < 2^64);
-built on the never-panic theorems of the TLV reader (C16) -/
-theorem cd_decode_total (content : Tlv.Bytes) (h : content.length + 1 < Tlv.USIZE) : CSafe (decode content) :=
+/-- **`CertificationElements::decode` never panics**, whatever the content below 2 GiB (`length < 2^31`: the TLV
+container walk counts nesting in an `i32`, C16 `levelStep`); built on the never-panic theorems of the TLV reader (C16) -/
+theorem cd_decode_total (content : Tlv.Bytes) (h : content.length < Tlv.I32LIM) : CSafe (decode content) :=
   decode_safe content h
 
-example : ([0x15, 0x18] : Tlv.Bytes).length + 1 < Tlv.USIZE := by decide
+example : ([0x15, 0x18] : Tlv.Bytes).length < Tlv.I32LIM := by decide
 
 /-- **CD content round trip**: the TLV structure the model encoder writes (Matter layout: format version, vendor id,
 product id array, device type, certificate id, security level / information, version number, certification type, the
@@ -1089,5 +1266,44 @@ def sampleDevice : DeviceInfo :=
     paiProductId := 0, paaSkid := List.replicate 20 0xAB }
 example : validSpec sampleCd sampleDevice := by
   refine ⟨rfl, rfl, by decide, ⟨rfl, rfl, rfl, Or.inl rfl⟩, Or.inr (by decide)⟩
+
+end C17
+
+/-! ## (G5, audit concern 2) the DER reader of `cert_der_roundtrip` linked to the `der`-crate reading layer, and the
+X.509 parser's field readers on the output of `as_asn1`
+
+The statements live (with docstrings and non-vacuity examples) in `Lemmas/CodecDerLink.lean` and
+`Lemmas/CodecDerLinkX509.lean`; headline theorems, all in namespace `C17` / `Codec.Der` / `Codec.CertAsn1`:
+`Codec.Der.readTree_enc`, `Codec.Der.readTree_sound`, `Codec.Der.readTree_iff_parseDer`, `Codec.Der.fromDerAny_enc_der`,
+`Codec.Der.seqItems_encL`, `Codec.CertAsn1.certFieldsOfDer_known`, `C17.cert_der_roundtrip_derrd`,
+`Codec.CertAsn1.hexRead_hexUp`, `Codec.CertAsn1.parseHexU16_hexUp`, `Codec.CertAsn1.asn1_tbs_layout`,
+`C17.cert_x509_field_readers`; `Lemmas/CodecDerLinkWalk.lean`: `Codec.DerRd.x509New_tbs_refused`, `Codec.CertAsn1.cal_days`,
+`Codec.CertAsn1.calOf_agree`, `Codec.CertAsn1.run_validity_asn1`, `C17.cert_x509_tbs_walk`, `Codec.DerRd.fails_extLoop`,
+`C17.cert_x509_exts_read`, `C17.cert_x509_exts_eku_refused`; `Lemmas/CodecDerLinkFull.lean`: `Codec.CertAsn1.extOfDer_known`,
+`Codec.CertAsn1.certFieldsOfDer_eq_rd`, `C17.cert_der_roundtrip_rd` (no `parseDer` left), `Codec.CertAsn1.attr_integer_read_back`,
+`C17.cert_dn_integers_read_back`, and the instances of the `cert_x509_*` theorems on `certSampleX509`. -/
+namespace C17
+open Codec Codec.Der Codec.CertAsn1
+
+/-- the two DER readers agree on every byte string within `Length::MAX` (restated from `Lemmas/CodecDerLink.lean`) -/
+theorem der_readers_agree (l : List Nat) (hb : ∀ b ∈ l, b < 256) (hmax : l.length ≤ Codec.DerRd.MAX_LEN) (d : Der) :
+    readTree l = some d ↔ parseDer l = some d ∧ d.known = true :=
+  readTree_iff_parseDer l hb hmax d
+example : (∀ b ∈ [0x30, 3, 0x02, 1, 5], b < 256) ∧ [0x30, 3, 0x02, 1, 5].length ≤ Codec.DerRd.MAX_LEN := by decide
+
+/-- `cert_der_roundtrip_derrd` applies to `certSample` -/
+example : ∃ n, certNode certSample = some n ∧ ∀ buf : List Nat, n.need ≤ buf.length → buf.length < 65536 →
+    ∃ d v, asAsn1 certSample.lazy buf = .ok n.enc ∧
+      Codec.DerRd.fromDerAny n.enc = .ok (d.tag, d.body) ∧ readTree n.enc = some d ∧ parseDer n.enc = some d ∧
+      d.known = true ∧ certFieldsOfDer d = some v ∧ certSample.view = some v :=
+  cert_der_roundtrip_derrd certSample (by
+    refine ⟨rfl, rfl, rfl, by decide, by decide, ?_, ?_, ?_⟩
+    · intro a ha; simp [certSample] at ha; rcases ha with rfl | rfl <;> simp [Attr.WF]
+    · intro a ha; simp [certSample] at ha; rcases ha with rfl | rfl | rfl <;> simp [Attr.WF]
+    · intro e he; simp [certSample] at he
+      rcases he with rfl | rfl | rfl | rfl | rfl <;> simp [XExt.WF])
+
+/-- the sample of `cert_x509_field_readers` is `certSample` with a full-length public key -/
+example : certSampleX509 = { certSample with pubkey := 4 :: List.replicate 64 7 } := rfl
 
 end C17
